@@ -176,8 +176,32 @@ def next_prefix(sched):
     return None
 
 
+WATCHDOG_S = 10
+
+
 def run_request(schema, query, variables, world, config, schedule=None, operation_name=None, instrumentation=None, middlewares=None,
                 root=None, disable_introspection=False, eager=()):
+    """run_request_unguarded under a watchdog for the thread-pool configuration: library code that *waits* for a parked task (instead of
+    registering a callback) would block the only thread that can complete it - reported as outcome 'pending' with hang=True, never a hung check"""
+    if config != "executor-threadpool":
+        return run_request_unguarded(schema, query, variables, world, config, schedule, operation_name, instrumentation, middlewares, root,
+                                     disable_introspection, eager)
+    import threading
+    box = {}
+
+    def target():
+        box["out"] = run_request_unguarded(schema, query, variables, world, config, schedule, operation_name, instrumentation, middlewares, root,
+                                           disable_introspection, eager)
+    t = threading.Thread(target=target, daemon=True)
+    t.start()
+    t.join(WATCHDOG_S)
+    if t.is_alive() or "out" not in box:
+        return {"log": [], "pending": True, "tasks": 0, "outcome": "pending", "result": None, "hang": True}
+    return box["out"]
+
+
+def run_request_unguarded(schema, query, variables, world, config, schedule=None, operation_name=None, instrumentation=None, middlewares=None,
+                          root=None, disable_introspection=False, eager=()):
     """returns dict(outcome='result'|'exception', result=GraphQLResult|None, exc=..., log=[...], pending=bool, tasks=int)"""
     from py_gql import process_graphql_query
     from py_gql.execution import BlockingExecutor, Executor
